@@ -24,7 +24,7 @@ func cmdLX(args []string) {
 	out := fs.String("out", "", "output prefix (mismatches)")
 	fs.Parse(args)
 	w := newShardWriter(*out, 1)
-	n, bad := 0, 0
+	n, bad, div := 0, 0, 0
 	for _, c := range readNDJSON(*in) {
 		var sb strings.Builder
 		for _, x := range c["in"].([]interface{}) {
@@ -86,14 +86,25 @@ func cmdLX(args []string) {
 			leak, frame = settled()
 		}
 		n++
-		if hung == 1 || pan != "" || leak > 0 || strings.Join(got, "\x01") != strings.Join(want, "\x01") {
-			bad++
-			w.line(fmt.Sprintf(`{"in":%s,"want":%s,"got":%s,"panic":%s,"hung":%d,"leak":%d,"frame":%s}`, mustJSON(c["in"]), strsJSON(want), strsJSON(got), jq(pan), hung, leak, jq(frame)))
+		// property (C05): the lexer returns, does not panic, leaves no goroutine, and its stream is well terminated; a token
+		// list that merely differs from the model's is a divergence between model and code, not a violation
+		prop := hung == 1 || pan != "" || leak > 0 || !shapeOK(got)
+		if prop || strings.Join(got, "\x01") != strings.Join(want, "\x01") {
+			kind := "divergence"
+			if prop {
+				kind = "property"
+				bad++
+			} else {
+				div++
+			}
+			if prop || div <= 25 {
+				w.line(fmt.Sprintf(`{"kind":%q,"in":%s,"want":%s,"got":%s,"panic":%s,"hung":%d,"leak":%d,"frame":%s}`, kind, mustJSON(c["in"]), strsJSON(want), strsJSON(got), jq(pan), hung, leak, jq(frame)))
+			}
 			if hung == 1 || bad >= 25 {
 				break // enough evidence; every further leaking case costs a settle loop
 			}
 		}
 	}
 	w.close()
-	fmt.Printf(`{"cases":%d,"mismatches":%d}`+"\n", n, bad)
+	fmt.Printf(`{"cases":%d,"mismatches":%d,"divergences":%d}`+"\n", n, bad, div)
 }
